@@ -133,6 +133,14 @@ def handle : List String → Option String
       | [c, s] => (true, c, s)
       | _ => (false, "", "")
     some (toString (GoSup.Spec.C08.holdsStream ss sb hasRet cls st (kvOf rest "closed" == some "1") (kvOf rest "single" != some "0")))
+  | "known" :: "C08-F1" :: rest => do
+    let ss := ((kvOf rest "ss").getD "").splitOn ">" |>.filter (· ≠ "")
+    let sb := ((kvOf rest "sb").getD "").splitOn ">" |>.filter (· ≠ "")
+    let ret := (kvOf rest "ret").getD "none"
+    let (hasRet, cls, st) := match ret.splitOn ":" with
+      | [c, s] => (true, c, s)
+      | _ => (false, "", "")
+    some (toString (GoSup.Spec.C08.knownC08F1 ss sb hasRet cls st (kvOf rest "closed" == some "1") (kvOf rest "single" != some "0")))
   | "httpseq" :: rest => do let (i, t) ← parseAll rest; some (httpseq i t)
   | _ => none
 
